@@ -2,8 +2,10 @@
 pub mod ast;
 pub mod build;
 pub mod canon;
+pub mod crash;
 pub mod emit;
 pub mod framework;
+pub mod fuzz;
 pub mod gen;
 pub mod guard;
 pub mod model;
